@@ -22,6 +22,13 @@ def atom_coords(seed: int, n: int, vel: bool):
     r = random.Random(f"coords-{seed}")
     pos = [[r.randint(-9999, 99999) / 1000.0 for _ in range(3)] for _ in range(n)]
     vels = [[r.randint(-99999, 99999) / 10000.0 for _ in range(3)] for _ in range(n)] if vel else None
+    if vels:
+        # some atoms AT REST (0.0000 0.0000 0.0000: a frozen group, a freshly built system): a velocity that is zero is
+        # still a velocity (seed C12-11: `if velocities.any()` takes it for "no velocity columns")
+        r2 = random.Random(f"rest-{seed}")
+        for i in range(n):
+            if r2.random() < 0.12:
+                vels[i] = [0.0, 0.0, 0.0]
     return pos, vels
 
 
